@@ -10,6 +10,21 @@ CHECKS = {
             "DESIGN.md 6/C01",
             "Generated insertion sequences (lengths at the offset-width and cluster boundaries, 0..8194 items, all compressions and levels, hints, memory/file/file-range sources, duplicates, dedup adder, BasicCreator in 3 packagings) are created with the real creator, read back with a fresh reader and compared byte for byte with a harness-held model; count, past-the-end addresses and check() are asserted and an independent decoder must find the same bytes. Evidence of absence of counterexamples in the explored set only.",
             "Trusts proptest, the harness model (bytes derived from (seed,len,entropy)), the lz4/xz2/zstd crates used by the independent decoder. lzma>=6 / |zstd|>19 only with <64 KiB of data."),
+    "C02": ("E1-proptest", "exploration",
+            "property-based testing (proptest): generated schemas/entries vs. reference model + independent decoder",
+            "DESIGN.md 6/C02",
+            "Generated schemas (0..6 common properties, 0..4 variants of unequal size incl. empty ones, constant columns anywhere, plain/indexed/shared value stores, inline prefix 0..31) and entry sets (integers at every byte-width boundary and both signs, arrays at length-width boundaries, content addresses at id-width boundaries, 0..600 entries, thousands in the thorough tier; value-store key-width and tail-size boundaries as fixed cases) are written with the real creator and read back through every index window with the real reader and with the independent decoder; both must equal the model, nothing may be visible beyond a window, a property of another variant answers None; the one unrepresentable in-range input (indexed store tail > 65535 bytes) must make creation fail.",
+            "Trusts proptest and the harness model; sorted stores only get distinct key tuples (documented precondition); schema limits documented in the code (prefix<=31, arrays<=0xFFFFFF) are respected by the generator."),
+    "C03": ("E1-proptest", "exploration",
+            "property-based testing (proptest) + bounded exhaustive enumeration of the search",
+            "DESIGN.md 6/C03",
+            "Generated sorted stores (1-3 keys over unsigned/signed/array properties, key pools with shared prefixes around the inline prefix length, 0x00/0xff, empty key) are created and the stored order is compared with the model's independent sort and, pairwise, with the reader's own comparison; present and derived absent keys are looked up in every window with binary and linear search, which must agree with the model and with each other. RangeTrait::find itself is enumerated exhaustively for n<=12 entries x every window x every probe position x both modes.",
+            "Trusts proptest and the harness comparator (numeric for integers, lexicographic on the whole byte string for arrays); thousands of keys only in the thorough tier."),
+    "C15": ("E1-proptest", "exploration",
+            "property-based testing (proptest): generated reference graphs vs. model of final positions",
+            "DESIGN.md 6/C15",
+            "Generated entry sets with Ref columns (Vow/Bound created before any entry so forward, backward, self references and chains exist; constant Ref columns), sorted and unsorted, up to 6000 entries (parallel sort and parallel index assignment); the value read back for a Ref column (real reader and independent decoder) must be the model's final position of the target, and every Bound returned by add_entry must report its entry's final position after finalisation.",
+            "Trusts proptest and the harness' independent sort of the distinct keys; rayon scheduling inside the creator is not controlled, only exercised (sizes above its sequential thresholds)."),
 }
 
 NOT_YET = {
